@@ -9,7 +9,7 @@ package flight12
 //symgo:stub prf.VerifyDataClient returns twelve zero bytes, the verify_data the harness puts into the client's Finished (the Finished check itself is C04)
 //symgo:stub prf.MasterSecret returns a constant; VerifyKeySignature / VerifyCertificateVerify always report a VALID signature (the most permissive peer: acceptance then depends only on the policy check under test); the cipher suite is a harness fake (certificate authenticated, Init does nothing)
 //symgo:assume zzSigSchemeServerAccepts: the server's scheme list entries are well-formed as ParseSignatureSchemes produces them (a PSS code point with its own hash, or two one-byte values that do not spell a PSS code point), so that each entry stands for exactly one wire code point
-//symgo:outside certificate chain verification and signature_algorithms_cert policy (C11 concerns the handshake signature scheme)
+//symgo:outside certificate chain verification (C03); signature_algorithms_cert is present only as an arbitrary list that must not influence the handshake-signature decision
 
 import (
 	"hash"
@@ -112,7 +112,7 @@ func zzSchemeAllowed(list []signaturehash.Algorithm, h dtlshash.Algorithm, s sig
 // Client policy on the server's signature scheme. flight5's initializeCipherSuite on a ServerKeyExchange whose
 // (hash, signature) pair is ARBITRARY (two 16-bit values) and whose signature verifies, for every client
 // signature-scheme list of 0..NFSCHEME arbitrary pairs: the client goes on (initialises its cipher) only if
-// the pair is in its own list; otherwise it stops with a fatal insufficient_security alert. Together with
+// the pair is in its own signature_algorithms list (whatever its signature_algorithms_cert list says); otherwise it stops with a fatal insufficient_security alert. Together with
 // zzSigSchemePick (the server picks from ITS list) the negotiated scheme is one both sides allow.
 //
 //symgo:entry covers=accepted,refused
@@ -120,6 +120,11 @@ func zzSigSchemeClientAccepts() {
 	cfg := &dtlsconfig.HandshakeConfig{
 		LocalSignatureSchemes: zzSymPolicySchemes("client_scheme", zzsymChoice("nclient", zzsymParam("NFSCHEME")+1)),
 		InsecureSkipVerify:    true,
+	}
+	// signature_algorithms_cert (certificate CHAIN signatures) is a separate, arbitrary list: it must not widen or
+	// narrow the policy on the handshake signature
+	if nc := zzsymChoice("ncertschemes", 2); nc > 0 {
+		cfg.LocalCertSignatureSchemes = zzSymPolicySchemes("client_cert_scheme", nc)
 	}
 	suite := &zzCertSuite{}
 	state := &dtlsstate.State12{
